@@ -409,6 +409,11 @@ func (hc *grpcHandlerConn) Spec() Spec {
 
 func (hc *grpcHandlerConn) Receive(msg any) error {
 	if err := hc.unmarshaler.Unmarshal(msg); err != nil {
+		// Only servers send gRPC-Web trailer frames. If a client does anyway,
+		// that's a malformed request, not the end of the request stream.
+		if errors.Is(err, errSpecialEnvelope) {
+			return errorf(CodeInvalidArgument, "protocol error: request contains a trailers frame")
+		}
 		return err // already coded
 	}
 	return nil // must be a literal nil: nil *Error is a non-nil error
@@ -549,6 +554,11 @@ func (u *grpcUnmarshaler) Unmarshal(message any) *Error {
 	mimeReader := textproto.NewReader(bufferedReader)
 	mimeHeader, mimeErr := mimeReader.ReadMIMEHeader()
 	if mimeErr != nil {
+		if errors.Is(mimeErr, io.EOF) {
+			// The block ended in the middle of a header. Callers treat errors
+			// wrapping io.EOF as the end of the stream, so don't wrap it.
+			mimeErr = io.ErrUnexpectedEOF
+		}
 		return errorf(
 			CodeInternal,
 			"gRPC-Web protocol error: trailers invalid: %w",
